@@ -80,7 +80,7 @@ def tbs_cert_list(strict_invalidity=True):
     rc = "self.revoked_certs"
     e = rc + "[]"
     idp = "self.issuing_distribution_point?"
-    inv = [Prim("GeneralizedTime", P(rc, via=["dt_to_generalized"]))] if strict_invalidity else [Time(e + ".invalidity_date?")]
+    inv = [Prim("GeneralizedTime", P(rc, via_any=[["dt_to_generalized"], ["dt_strip_nanos", "GeneralizedTime::from_datetime"]]))] if strict_invalidity else [Time(e + ".invalidity_date?")]
     return [Seq([
         Prim("INTEGER", C(1)),
         R.alg_ident("issuer.key_pair.alg", "issuer.key_pair.alg"),
